@@ -541,7 +541,7 @@ func c16Run(schema, replaySchema graphql.Schema, t *c16Trial, chCap int) (coq st
 						if idx < 1 {
 							idx = 1000 // an error that no field accounts for
 						}
-						errs = append(errs, coqN(idx-1))
+						errs = append(errs, coqN(idx-1)+"%nat")
 					}
 					retTerm = "ORet (RetResp (RespFull " + coqList(outs) + " " + coqList(errs) + "))"
 				}
